@@ -387,6 +387,9 @@ func handleCreatePermissionRequest(req Request, stunMsg *stun.Message) error {
 	addCount := 0
 	errorCode := stun.CodeBadRequest
 
+	// Validate every XOR-PEER-ADDRESS before installing anything: a request that is
+	// answered with an error must not leave permissions behind (RFC 5766 9.2).
+	peerAddresses := []proto.PeerAddress{}
 	if err := stunMsg.ForEach(stun.AttrXORPeerAddress, func(m *stun.Message) error {
 		var peerAddress proto.PeerAddress
 		if err := peerAddress.GetFrom(m); err != nil {
@@ -410,6 +413,14 @@ func handleCreatePermissionRequest(req Request, stunMsg *stun.Message) error {
 			return err
 		}
 
+		peerAddresses = append(peerAddresses, peerAddress)
+
+		return nil
+	}); err != nil {
+		peerAddresses = nil
+	}
+
+	for _, peerAddress := range peerAddresses {
 		req.Log.Debugf("Adding permission for %s", net.JoinHostPort(
 			peerAddress.IP.String(), strconv.Itoa(peerAddress.Port)))
 
@@ -422,10 +433,6 @@ func handleCreatePermissionRequest(req Request, stunMsg *stun.Message) error {
 			req.PermissionTimeout,
 		))
 		addCount++
-
-		return nil
-	}); err != nil {
-		addCount = 0
 	}
 
 	respClass := stun.ClassSuccessResponse
